@@ -115,7 +115,7 @@ def mkData (S : Script) (W : World DV) (strKeys : Bool) : DataWorld DV where
   toWorld := W
   isMapping := fun v => match v with | .map _ => true | _ => false
   toDict := fun v => runAct v (S.find 5 0 v.tokOf)
-  castKeys := fun v => pure v
+  castKeys := fun v => runAct v (S.find 5 1 v.tokOf)
   unpack := fun v => match v with
     | .map kvs => if strKeys then pure (kvs.map fun (k, x) => (k.tokOf, x)) else raise (builtinExc K.typeError)
     | _ => raise (builtinExc K.typeError)
@@ -126,12 +126,12 @@ def mkData (S : Script) (W : World DV) (strKeys : Bool) : DataWorld DV where
     | some .div => divergeM
     | _ => pure none
   noInput := fun _ _ => false
-  neq := fun a _ =>
+  neq := fun a b =>
     match S.find 8 0 a.tokOf with
     | some (.truth b) => pure b
     | some (.raise p c) => raise (.one { perr := p, cls := c })
     | some .div => divergeM
-    | _ => pure true
+    | _ => pure (a.tokOf != b.tokOf)
   depsLack := fun _ => false
 
 def policyOf (j : Json) : Policy :=
